@@ -188,9 +188,9 @@ def _grid():
         add("DistBinomial", n=n, p=p)
     for lo, hi in ((1, 6), (0, 1), (-50, 150), (-3, 3), (7, 8)):
         add("DistDiscreteUniform", lo=lo, hi=hi)
-    for p in (0.01, 0.1, 0.5, 0.9, 0.99):
+    for p in (0.01, 0.1, 0.5, 0.9, 0.99, 1.0):             # p == 1.0 is the valid boundary: all mass on 0
         add("DistGeometric", p=p)
-    for s, p in ((1, 0.5), (1, 0.01), (2, 0.99), (5, 0.3), (60, 0.5), (60, 0.05), (13, 0.9)):
+    for s, p in ((1, 0.5), (1, 0.01), (2, 0.99), (5, 0.3), (60, 0.5), (60, 0.05), (13, 0.9), (3, 1.0), (1, 1.0)):
         add("DistNegBinomial", s=s, p=p)
     for r in (0.05, 0.5, 1.0, 1, 4.2, 25, 60.0, 87.5, 100.0, 100):
         add("DistPoisson", rate=r)
